@@ -20,6 +20,7 @@ func runC03(r *engine.Run) {
 	r.Rule("DOM-merge", "in mergeChanges every insertNode/deleteNode/setRoot is reached only when bytes.Equal(trie root, child's start root) held; in MergeMPTChanges the merge is reached only when the child's store is a *LevelNodeDB whose previous level is this trie's store")
 	r.Rule("CLONE-store", "MemoryNodeDB stores CloneNode() of the node it is given (never the caller's object); the trie populates its node cache only through TransactionCache.Set (which clones, C07)")
 	r.Rule("DOM-cancel", "see C05: a node that is live again in the child never stays in the child's delete set (the merge would delete it from the parent)")
+	r.Rule("FRESH-bytes", "the byte slices handed out by the node accessors (MarshalMsg, Encode, GetHashBytes, GetValueBytes in core/util) are new buffers on every return: nil, make/conversion results, results of calls that produce new buffers, or appends to such; never a field, element, global or map entry. FRESH-node relies on this, and callers of GetNodeValueRaw own (and may overwrite) the slice they get")
 	r.Rule("FRESH-node", "in the trie operations no node field store, node mutator call (SetValue, PutChild, SetOrigin, SetVersion, SetOriginTracker, Decode, CopyFrom) or in-place byte-slice write (append base, copy destination, element store) targets memory that derives from a node handed out by the store/cache, from a caller's argument or from a shallow copy; only constructor results, Clone() results, concat/make results and literals may be written (interprocedural source-label dataflow, parameters by fixpoint over call sites)")
 	r.Rule("DOM-adopt", "in MergeMPTChanges, MergeChanges and mergeChanges every return either returns a provably non-nil error, returns the result of mergeChanges, is dominated by the adoption of the child's root (mergeChanges call / setRoot(newRoot) / store of newRoot to root), or is reached only where bytes.Equal(this trie's root, the child's root) held: a merge never reports success while the parent keeps a root different from the child's")
 	r.Rule("WHO-tombstones", "LevelNodeDB.DeletedNodes (tombstones of deletes that were not propagated) is never read by the level store's lookups (getNode, GetNode, MultiGetNode, Iterate, Size): tombstones are not cleared when a node is stored again")
@@ -435,6 +436,9 @@ func freshNode(r *engine.Run, prop string) {
 			}
 			r.Fail(rule, key, pos, "in-place write ("+s.what+") to memory that derives from "+src+": the bytes are shared with the store, the node cache or a pending change, so a sibling, the parent or a saved node changes behind its hash")
 		}
+	}
+	if prop != "C17" {
+		freshBytes(r, "FRESH-bytes")
 	}
 	if prop != "C17" && n < 25 {
 		r.Anchor(rule, fmt.Errorf("unresolved anchor: only %d node write sites found in the trie operations", n))
